@@ -19,7 +19,7 @@ class Scenario:
         self.events = []
         self.idmap = {}          # real request id -> small id for the trace
         self.req = {}            # r -> dict(id, doc)
-        self.next_r = 1; self.next_c = R + 1
+        self.next_r = 1; self.next_c = R + 1; self.conf_live = 0
         self.peer_open = True
         self.violation = None
 
@@ -63,6 +63,8 @@ class Scenario:
         out = self.s.cmd("ADDCONF %d" % r)
         rc = int(netsim.kv(out[-1])["rc"], 16)
         self.events.append(dict(e="Add", r=r, rc={0: "OK", 0x10a: "STATE"}.get(rc, "ERR%x" % rc), id=0))
+        if rc == 0:
+            self.conf_live = r
 
     def conf_payload(self, v):
         # aggregator configuration: maximum level = v; extender configuration: maximum requests = v
@@ -119,12 +121,14 @@ class Scenario:
         self.events.append(dict(e="Srv", m=m, kind=kind))
         return True
 
-    def message(self, about=None):
+    def message(self, about=None, force=None):
         """one PDU the server may write: (bytes, its abstraction for AsyncService.tla, kind); about = the request it is preferably about"""
         rng = self.rng
         TAG = 0x0321 if self.svc == "extend" else 0x0221
         kind = rng.choices(["valid", "valid", "valid", "wronghash", "status", "errpdu", "badmac", "garbage", "unknown", "stale", "conf"],
                            weights=[6, 6, 6, 2, 2, 1, 1, 1, 1, 2, 2.5])[0]
+        if force:
+            kind = force
         if kind == "conf":          # a PDU that carries only a configuration: the answer to a configuration request, or a push
             v = rng.randrange(1, 200)
             return ksi.pdu_v2(TAG, b"anon", b"anon", [self.conf_payload(v)]), dict(k="conf", conf=v), kind
@@ -233,8 +237,11 @@ class HttpScenario(Scenario):
         for ln in self.s.log[mark:]:
             if ln.startswith("E madd "):
                 f = dict(x.split("=", 1) for x in ln.split()[2:])
-                rid = int.from_bytes(wire.request_fields(bytes.fromhex(f["post"]))["payload"].get(1, b""), "big")
+                flds = wire.request_fields(bytes.fromhex(f["post"]))
+                rid = int.from_bytes(flds["payload"].get(1, b""), "big")
                 owner = [r for r in self.req if self.req[r]["id"] == rid]
+                if not flds["payload"] and self.conf_live:       # no request payload: the exchange of the configuration request
+                    owner = [self.conf_live]
                 if not owner:
                     raise vlib.CheckError("an HTTP exchange carries a request id nobody was given: %s" % ln[:200])
                 self.live[int(f["x"])] = owner[0]
@@ -248,7 +255,7 @@ class HttpScenario(Scenario):
         if how == "httperr":
             self.s.cmd("MHTTP %d %d %s" % (x, rng.choice([400, 404, 500, 503, 599]), rng.choice(["-", b"<html>error</html>".hex()])))
             self.events.append(dict(e="HDone", x=r, res="httperr", msgs=[], junk=False)); return
-        parts = [] if how in ("empty", "junk") and rng.random() < 0.5 else [self.message(about=r) for _ in range(2 if how == "body2" else 1)]
+        parts = [] if how in ("empty", "junk") and rng.random() < 0.5 else [self.message(about=r, force=("conf" if r > R and rng.random() < 0.6 else None)) for _ in range(2 if how == "body2" else 1)]
         if how == "empty": parts = []
         raw = b"".join(p[0] for p in parts)
         junk = how == "junk"
@@ -268,8 +275,10 @@ class HttpScenario(Scenario):
         return True
 
     def step(self):
-        a = self.rng.choices(["add", "run", "srv", "tick", "open"], weights=[5, 8, 6, 2, 0.6])[0]
-        if a == "open":
+        a = self.rng.choices(["add", "run", "srv", "tick", "open", "addconf"], weights=[5, 8, 6, 2, 0.6, 0.8])[0]
+        if a == "addconf":
+            self.addconf()
+        elif a == "open":
             # the transfer library refuses (or again accepts) new exchanges: curl_multi_add_handle fails
             v = self.rng.choice(["ok", "fail", "fail"])
             self.s.cmd("MADDFAIL %d" % (v == "fail")); self.events.append(dict(e="Open", v=v))
